@@ -133,7 +133,7 @@ def structural_update0(op, tree_tpl, parallel=False):
         g = template(op['tpl'], op['x0'], parallel)
         g['key'] = op['k']
         return {'agents': {'_generate': [g]}}
-    if o == 'div':
+    if o in ('div', 'divx'):
         tpl = tree_tpl[('agents', op['k'])]
         if op.get('keyonly') and not parallel:
             # daughters named by key only: they get copies of the mother's
@@ -144,7 +144,8 @@ def structural_update0(op, tree_tpl, parallel=False):
         for d in (op['d1'], op['d2']):
             t = template(tpl, 0, parallel)
             t['key'] = d
-            t['initial_state'] = {}
+            # divx: the daughter entries list a value for a variable the mother holds
+            t['initial_state'] = {'v': {'x': op['x0']}} if o == 'divx' else {}
             ds.append(t)
         return {'agents': {'_divide': {'mother': op['k'], 'daughters': ds}}}
     if o == 'move':
@@ -649,6 +650,7 @@ def applicable_ops(model, tpls=('T1', 'T2', 'T3'), names=NAMES, max_comps=3):
             free = [d for d in names if d not in ag]
             if len(free) >= 2 and n < max_comps:
                 ops.append({'op': 'div', 'k': k, 'd1': free[0], 'd2': free[1]})
+                ops.append({'op': 'divx', 'k': k, 'd1': free[0], 'd2': free[1], 'x0': 7})
         if k in po and k not in ag:
             ops.append({'op': 'moveback', 'k': k})
     return ops
@@ -672,7 +674,7 @@ def apply_model(model, op):
         del m['agents'][op['k']]
     if o in ('adddel', 'gendel'):
         del m['agents'][op['k2']]
-    if o == 'div':
+    if o in ('div', 'divx'):
         t = m['agents'].pop(op['k'])
         m['agents'][op['d1']] = t
         m['agents'][op['d2']] = t
